@@ -330,6 +330,17 @@ func runCase(app *fx.App, tr *fx.Trace, r *fx.Rng, caseNo int) {
 			}
 			tr.Tag("oracle-status-flipped")
 		}
+		// governance changes the cooldown while the daemon runs (MsgUpdateParams): the next round decides with the new value
+		var cooldownNow any
+		if r.Chance(1, 25) {
+			p2 := app.FeedsKeeper.GetParams(w.ctx)
+			p2.CooldownTime = int64(r.PickInt(5, 10, 30, 60))
+			if p2.Validate() == nil {
+				fx.Must(app.FeedsKeeper.SetParams(w.ctx, p2))
+				cooldownNow = p2.CooldownTime
+				tr.Tag("cooldown-changed")
+			}
+		}
 		mayFeed := app.FeedsKeeper.ValidateValidatorRequiredToSend(w.blockCtx(), val) == nil
 		fault := ""
 		switch r.Intn(12) {
@@ -392,6 +403,9 @@ func runCase(app *fx.App, tr *fx.Trace, r *fx.Rng, caseNo int) {
 			"out": fx.M{"ran": ran, "decided": decOut, "deliveries": deliv, "released": released, "waited": waited, "pendingAfter": pendingList(pending)}}
 		if feedsNow != nil {
 			line["feeds"] = feedsNow
+		}
+		if cooldownNow != nil {
+			line["cooldown"] = cooldownNow
 		}
 		tr.Op(line)
 		if !released {
